@@ -26,6 +26,7 @@ func init() {
 			ruleFinishRenameLast(r)
 			ruleCompactionNeedsInput(r)
 			ruleMergeAlwaysReduces(r)
+			ruleLastGroupEmitted(r)
 		})
 	register("C08",
 		"Static rules for merging and stacking: (E-KEYNIL) no key-carrying value is compared with nil on the merge path; the merge iterator treats values as opaque except for nil-ness and nil-tests the reducer's value result at both emission sites; the merge context of every input is its index in the oldest-first reader slice in all three stacked scans; the iterator adapter and the stacked point lookups forward every error that is not the reviewed not-found / exhaustion sentinel (E-ERRFLOW). Decides these shapes; heap order, reducer arithmetic and scan bounds are value-level and not decided.",
@@ -45,6 +46,7 @@ func init() {
 			ruleSentinelForm(r, "pq", "sstables")
 			ruleSentinelProducible(r, "sstables", "pq")
 			ruleMergeAlwaysReduces(r)
+			ruleLastGroupEmitted(r)
 			ruleErrorIsLooksAtTarget(r)
 			ruleMergeAcceptsAnyCount(r)
 		})
